@@ -20,6 +20,10 @@ ASSUMPTIONS = ["Python exception classes/messages are mapped to the model's erro
 TRUSTED = ["harness/solver.py scenario driver and LSODA recorder"]
 
 
+# out-of-range ordinals, including ones that alias a valid ordinal modulo 2^8, 2^16, 2^32 (a narrowing cast must not make them valid)
+BAD_ORDINALS = [-1, 8, 255, 256, 260, 262, 263, 512, -256, -252, 65536, 65540, 2**32 + 4, 2**32]
+
+
 def _err_kind(out):
     if out[0] != "err":
         return "ok"
@@ -46,7 +50,7 @@ def run(ctx, res):
                 "(c) failure injection (unsupported regime from the start or switched mid-interval by get_regime, L callable raising at "
                 "the k-th evaluation). non-trivial = every dispatch triple is distinct; scenarios distinct by hash")
     # ---------------- (a) dispatch table
-    regs = [-3, -1, 0, 1, 2, 3, 4, 5, 6, 7, 8, 9, 255, 10**6]
+    regs = [-3, -1, 0, 1, 2, 3, 4, 5, 6, 7, 8, 9, 255, 256, 260, 263, -252, 65540, 10**6]
     cases = []
     for r in regs:
         for ph in (0, 1, 2, -1):
@@ -148,10 +152,11 @@ def run(ctx, res):
                         "max|df|": float(np.abs(m.fractions[-1] - f0).max()), "F_relerr": float(relerr)})
 
     # ---------------- (c) failed updates leave the stored history untouched
-    n_f = 16 if not ctx["thorough"] else 48
+    n_f = 24 if not ctx["thorough"] else 72
     for k in range(n_f):
         mode = ["unsupported_regime", "switch_midway", "L_raises", "bad_regime_ordinal", "position_raises", "mismatched_fabric",
-                "null_mineral_unsupported_callable", "null_mineral_bad_ordinal_callable"][k % 8]
+                "null_mineral_unsupported_callable", "null_mineral_bad_ordinal_callable", "bad_fabric_ordinal", "bad_phase_ordinal",
+                "unsupported_regime_zero_L", "bad_regime_ordinal_zero_L"][k % 12]
         sc = solver.make_scenario(rng, k, nmax=10)
         sc["n_updates"] = 1
         m = solver.build_mineral(sc)
@@ -181,13 +186,13 @@ def run(ctx, res):
         if mode == "unsupported_regime":
             m.regime = core.DeformationRegime(int(rng.choice([2, 3, 5])))
         elif mode == "bad_regime_ordinal":
-            m.regime = int(rng.choice([-1, 8, 255]))
+            m.regime = int(rng.choice(BAD_ORDINALS))
         elif mode == "switch_midway":
             get_regime = lambda t, x: core.DeformationRegime.matrix_dislocation if t < 0.35 else core.DeformationRegime.sliding_dislocation  # noqa: E731
         elif mode in ("null_mineral_unsupported_callable", "null_mineral_bad_ordinal_callable"):
             # the mineral currently sits in a viscosity-bound regime; the callable then declares a rejected regime
             m.regime = core.DeformationRegime(int(rng.choice([0, 7])))
-            bad = int(rng.choice([2, 3, 5])) if mode.startswith("null_mineral_unsupported") else int(rng.choice([-1, 8, 255]))
+            bad = int(rng.choice([2, 3, 5])) if mode.startswith("null_mineral_unsupported") else int(rng.choice(BAD_ORDINALS))
             get_regime = lambda t, x, bad=bad: bad  # noqa: E731
         elif mode == "L_raises":
             getL = Lraise
@@ -195,6 +200,14 @@ def run(ctx, res):
             getpos = posraise
         elif mode == "mismatched_fabric":
             m.fabric = core.MineralFabric.enstatite_AB if int(m.phase) == 0 else core.MineralFabric.olivine_A
+        elif mode in ("unsupported_regime_zero_L", "bad_regime_ordinal_zero_L"):
+            # no flow at all: the ordinals are still checked (the unrepaired code returned before the regime dispatch)
+            m.regime = int(rng.choice([2, 3, 5])) if mode.startswith("unsupported") else int(rng.choice(BAD_ORDINALS))
+            getL = lambda t, x: np.zeros((3, 3))  # noqa: E731
+        elif mode == "bad_fabric_ordinal":
+            m.fabric = int(rng.choice([6, -1, 255, 256, 259, 513, 65536 + 2]))
+        elif mode == "bad_phase_ordinal":
+            m.phase = int(rng.choice([2, -1, 256, 257, 65536]))
         raised = None
         try:
             m.update_orientations(params, np.eye(3), getL, (0.2, 0.5, getpos), get_regime=get_regime)
